@@ -1383,6 +1383,12 @@ func (c *BytecodeCompiler) compileNode(node ast.Node, valueIsIgnored bool) expre
 		c.compileAwaitExpressionNode(node)
 	case *ast.YieldExpressionNode:
 		c.compileYieldExpressionNode(node)
+		if !valueIsIgnored {
+			// the yielded value is handed to the consumer: in a position that needs a value
+			// (the last expression of a `do` or `if` body) `yield` itself leaves nil
+			c.emit(node.Location().EndPos.Line, bytecode.NIL)
+			return expressionCompiled
+		}
 		return expressionCompiledWithoutResult
 	case *ast.VariablePatternDeclarationNode:
 		c.compileVariablePatternDeclarationNode(node)
